@@ -147,11 +147,13 @@ void Exec::op_read(Client &c) {
 	if (op->i("missing", 0) && op->i("sweep", 0) && world.handler_installed) {
 		// "delivered as a complete message": the diagnostic for a file that is not there quotes its path; every length around the sizes a
 		// formatting buffer might have (256, 512, 1024, ... minus what the message puts in front) has to arrive whole
-		static const int bases[] = {256, 512, 1024, 2048, 4096, 8192}; int base = 0; int bad = 0, quoted = 0; std::string firstbad;
+		static const int bases[] = {256, 512, 1024, 2048, 4096, 8192}; int base = 0; int bad = 0, quoted = 0; std::string firstbad; bool tail_known = false; std::string tail0;
 		for (int bi = 0; bi < 6; bi++) for (int len = bases[bi] - 90; len <= bases[bi] + 2; len++) { base = bases[bi]; std::string pth = "/sim/no_such_dir/"; while ((int)pth.size() < len - 4) pth.push_back("subdir_"[pth.size() % 7]); pth += fmt == "LP" ? ".lp" : ".mps";
-			world.expected_paths.insert(pth); world.log_expect = pth; world.log_expect_full = world.log_expect_prefix = 0;
+			world.expected_paths.insert(pth); world.log_expect = pth; world.log_expect_full = world.log_expect_prefix = 0; world.log_expect_tail_set = false; world.log_expect_tail.clear();
 			mpq_QSprob qq = mpq_QSread_prob(pth.c_str(), fmt.c_str()); if (qq) mpq_QSfree_prob(qq); after_lib_call("read:" + fmt);
-			if (world.log_expect_prefix > 0) { quoted++; if (world.log_expect_full == 0) { bad++; if (firstbad.empty()) firstbad = strf("path of %d characters", (int)pth.size()); } } }
+			if (world.log_expect_prefix > 0) { quoted++; if (world.log_expect_full == 0) { bad++; if (firstbad.empty()) firstbad = strf("path of %d characters", (int)pth.size()); }
+				// ... and what the message says behind the path is the same for every length: a message that lost its last characters differs
+				else if (world.log_expect_tail_set) { if (!tail_known) { tail_known = true; tail0 = world.log_expect_tail; } else if (world.log_expect_tail != tail0) { bad++; if (firstbad.empty()) firstbad = strf("path of %d characters: the message ends \"%s\", the others end \"%s\"", (int)pth.size(), world.log_expect_tail.substr(0, 60).c_str(), tail0.substr(0, 60).c_str()); } } } }
 		world.log_expect.clear();
 		T(strf("  missing-path sweep around 256..8192: %d diagnostics quote the path, %d cut", quoted, bad)); probe("c20.path_sweep_quoted", quoted);
 		if (bad) violate("C20", "truncated-message:read-missing", strf("the diagnostic for a missing file quotes its path, but not all of it (%s; %d of %d lengths around the powers of two from 256 to 8192)", firstbad.c_str(), bad, quoted));
